@@ -2502,6 +2502,13 @@ SDIgetcoordvar(NC     *handle, /* IN: file handle */
                     (*dp)->var_type == UNKNOWN) {
                     /* see if we need to change the number type */
                     if ((nt != 0) && (nt != (*dp)->type)) {
+                        /* values that are stored already live in an element of fixed
+                           length: values of a wider type do not fit in, and the
+                           variable must not change its type when they cannot be written */
+                        if ((*dp)->data_ref != 0 && !IS_RECVAR(*dp) && DFKNTsize(nt) > (*dp)->HDFsize) {
+                            HGOTO_ERROR(DFE_BADNUMTYPE, FAIL);
+                        }
+
                         if (((*dp)->type = hdf_unmap_type((int)nt)) == FAIL) {
                             HGOTO_ERROR(DFE_INTERNAL, FAIL);
                         }
